@@ -49,7 +49,9 @@ var yamlTexts = []string{"plain text", "Ünï✓ødé 日本", "yes", "no", "nul
 	"|", ">", "tab\there", "colon:", "key: value # comment", "😀", "", "-", "?", "2001-01-01", ".inf", "1_000", ".nan", "-.inf", "Null", "- - y", "-x", "nulls",
 	// multi-line texts (scripts, notes): indentation, blank lines and line ends are content
 	"  if x > 3 {\n      y = 1\n  }", " \n", "\nstarts with a newline", "ends with a newline\n", "a\n\nb", "\tfirst\n\t\tsecond",
-	"x\n  y\n", "  - item\n  - item2", "two\n\n", "a\n b\n  c"}
+	"x\n  y\n", "  - item\n  - item2", "two\n\n", "a\n b\n  c",
+	// a description that already carries the import marker (the export of an imported tree)
+	"plant A (import)", "(import)"}
 
 // input class of the known finding F15a: texts that the YAML library writes
 // unquoted although YAML reads them back as null, as a special float, or as the
